@@ -206,6 +206,18 @@ pub enum VerifyFailure {
         /// The location at which the permutation is not satisfied.
         location: FailureLocation,
     },
+    /// A constraint with an additive selector (trash argument) was not
+    /// satisfied on a row where its selector is enabled.
+    Trash {
+        /// The name of the trash argument that is not satisfied.
+        name: String,
+        /// The index of the trash argument that is not satisfied.
+        trash_index: usize,
+        /// The index of the unsatisfied constraint within the argument.
+        constraint_index: usize,
+        /// The location at which the constraint is not satisfied.
+        location: FailureLocation,
+    },
 }
 
 impl fmt::Display for VerifyFailure {
@@ -278,6 +290,17 @@ impl fmt::Display for VerifyFailure {
                     "Equality constraint not satisfied by cell ({}, {})",
                     location.get_debug_column(*column),
                     location
+                )
+            }
+            Self::Trash {
+                name,
+                trash_index,
+                constraint_index,
+                location,
+            } => {
+                write!(
+                    f,
+                    "Additive-selector constraint {constraint_index} of {name}(index: {trash_index}) is not satisfied {location}",
                 )
             }
         }
